@@ -164,12 +164,24 @@ func (ms *Modules) resolveIdentities() []error {
 	// under the same names: visit the modules in the order of the names they
 	// are filed under, so that it is always the newest revision's that stay.
 	for _, mod := range sortedModules(ms.Modules) {
-		for _, i := range mod.Identities() {
+		// The identities of a module and of its submodules share one
+		// namespace (RFC 7950 6.2.1): a second definition of a name is
+		// reported instead of silently taking the place of the first.
+		defined := map[string]*Identity{}
+		file := func(m *Module, i *Identity) {
 			// The values are computed below; forget those of an
 			// earlier run.
 			i.Values = nil
-			keyName, r := newResolvedIdentity(mod, i)
+			if o := defined[i.Name]; o != nil && o != i {
+				errs = append(errs, fmt.Errorf("%s: duplicate identity %s (also defined at %s)", Source(i), i.Name, Source(o)))
+				return
+			}
+			defined[i.Name] = i
+			keyName, r := newResolvedIdentity(m, i)
 			ms.typeDict.identities.dict[keyName] = *r
+		}
+		for _, i := range mod.Identities() {
+			file(mod, i)
 		}
 
 		// Hoist up all identities in our included submodules, and in the
@@ -189,9 +201,7 @@ func (ms *Modules) resolveIdentities() []error {
 					continue
 				}
 				for _, i := range in.Module.Identities() {
-					i.Values = nil
-					keyName, r := newResolvedIdentity(in.Module, i)
-					ms.typeDict.identities.dict[keyName] = *r
+					file(in.Module, i)
 				}
 				todo = append(todo, in.Module)
 			}
